@@ -152,4 +152,4 @@ var c06 = &vh.Prop[c06Case]{
 
 func init() { registrars = append(registrars, c06.Register) }
 
-func TestC06(t *testing.T) { c06.Check(t, vh.N(20000, 50000)) }
+func TestC06(t *testing.T) { c06.Check(t, vh.N(20000, 30000)) }
